@@ -30,8 +30,9 @@ import (
 )
 
 type act struct {
-	Kind string // emit setr addr panic call deferclo deferfn deferloop recover recoverdeep
+	Kind string // emit setr addr panic call deferclo deferfn deferloop recover recoverdeep deferbi
 	K    int
+	V    int // deferbi: unique suffix of the names declared by the template (K = template index)
 	Body []act
 }
 
@@ -48,6 +49,10 @@ type prog struct {
 	TopName string `json:"-"`
 	TopIdx  int    `json:"-"`
 	Replay  bool   `json:"-"`
+	// corpus programs (builtin.go): fixed failure key; Defer = listed in report.json extra "deferred_corpus_failures"
+	// instead of failing while the key is not registered in known_findings.json
+	Key   string `json:"-"`
+	Defer bool   `json:"-"`
 }
 
 // input is what is recorded for every evaluated tree (inputs.jsonl, failures): enough to re-execute it exactly
@@ -122,6 +127,9 @@ type gen struct {
 	fnDefers    []bool // function (transitively) installs defers
 	inLoop      bool   // generating the body of a counted loop (loops are not nested)
 	fnSize      []int  // dyn() of each function generated so far
+	noBuiltin   bool   // defer of the builtins close/delete/copy/recover is not compiled by this gomacro: do not generate it
+	nf          int    // number of functions of the program (the last one is the entry point: never itself deferred)
+	nextB       int
 }
 
 // body of function index fi (calls only to lower indices); inDeferred: we are (transitively) inside a deferred closure
@@ -131,6 +139,25 @@ func (g *gen) body(fi, depth int, closure, inDeferred bool, budget *int) []act {
 	for i := 0; i < n && *budget > 0; i++ {
 		*budget--
 		switch x := g.r.Intn(100); {
+		case x >= 12 && x < 18 && !g.noBuiltin && !(inDeferred && g.avoidNested):
+			// defer of a builtin: close, delete, copy, panic, print/println, recover (builtin.go)
+			t := g.r.Intn(len(biTemplates))
+			if biTemplates[t].topOnly && (closure || fi != g.nf-1) {
+				t = g.r.Intn(biRecover) // templates before biRecover can be used everywhere
+			}
+			g.nextB++
+			a := act{Kind: "deferbi", K: t, V: g.nextB}
+			if biTemplates[t].panics {
+				g.nextV++
+				a.V = g.nextV
+				g.feat["panic"]++
+			}
+			g.feat["defer-builtin"]++
+			g.feat["defer-builtin:"+biTemplates[t].name]++
+			if g.inLoop {
+				g.feat["defer-builtin-in-loop"]++
+			}
+			out = append(out, a)
 		case x < 18:
 			out = append(out, act{Kind: "emit", K: g.r.Intn(90)})
 		case x < 28:
@@ -223,7 +250,7 @@ func (g *gen) body(fi, depth int, closure, inDeferred bool, budget *int) []act {
 func hasDefer(as []act) bool {
 	for _, a := range as {
 		switch a.Kind {
-		case "deferclo", "deferfn", "deferloop":
+		case "deferclo", "deferfn", "deferloop", "deferbi":
 			return true
 		case "loop":
 			if hasDefer(a.Body) {
@@ -246,6 +273,8 @@ func (g *gen) dyn(as []act) int {
 			n += 2 * (2 + g.dyn(a.Body))
 		case "deferclo":
 			n += 1 + g.dyn(a.Body)
+		case "deferbi":
+			n += 3
 		case "call", "deferfn":
 			n += 2 + g.fnSize[a.K]
 		default:
@@ -286,6 +315,8 @@ func renderActs(as []act, ind string, sb *strings.Builder) {
 			fmt.Fprintf(sb, "%sif x := recover(); x != nil {\n%s\temit(1000 + x.(int))\n%s} else {\n%s\temit(-1)\n%s}\n", ind, ind, ind, ind, ind)
 		case "recoverdeep":
 			fmt.Fprintf(sb, "%semit(rec())\n", ind)
+		case "deferbi":
+			biTemplates[a.K].render(a.V, ind, sb)
 		}
 	}
 }
@@ -331,6 +362,8 @@ func coqActsList(as []act) []string {
 			parts = append(parts, "ARecover")
 		case "recoverdeep":
 			parts = append(parts, "ARecoverDeep")
+		case "deferbi":
+			parts = append(parts, biTemplates[a.K].coq(a.V)...)
 		}
 	}
 	return parts
@@ -347,7 +380,7 @@ func hasNested(as []act, inDef bool) bool {
 			if inDef || hasNested(a.Body, true) {
 				return true
 			}
-		case "deferfn":
+		case "deferfn", "deferbi":
 			if inDef {
 				return true
 			}
@@ -363,7 +396,7 @@ func (g *gen) installs(as []act) bool {
 			if g.installs(a.Body) {
 				return true
 			}
-		case "deferclo", "deferloop", "deferfn":
+		case "deferclo", "deferloop", "deferfn", "deferbi":
 			return true
 		case "call":
 			if g.fnDefers[a.K] {
@@ -374,9 +407,10 @@ func (g *gen) installs(as []act) bool {
 	return false
 }
 
-func genProg(r *vh.Rng, avoidNested bool) *prog {
-	g := &gen{r: r, feat: map[string]int{}, avoidNested: avoidNested}
+func genProg(r *vh.Rng, avoidNested, noBuiltin bool) *prog {
+	g := &gen{r: r, feat: map[string]int{}, avoidNested: avoidNested, noBuiltin: noBuiltin}
 	nf := 2 + r.Intn(3)
+	g.nf = nf
 	p := &prog{Feat: g.feat}
 	for fi := 0; fi < nf; fi++ {
 		budget := 6 + r.Intn(8)
@@ -484,8 +518,8 @@ func oracleBatch(a *vh.Args, progs []*prog, batch int) (map[int]obs, error) {
 		return nil, fmt.Errorf("go build of oracle batch %d failed: %v\n%s", batch, err, string(out))
 	}
 	run := exec.Command(filepath.Join(dir, "oracle.bin"))
-	var out bytes.Buffer
-	run.Stdout, run.Stderr = &out, &out
+	var out, errOut bytes.Buffer // deferred print/println write to stderr: kept apart from the result lines
+	run.Stdout, run.Stderr = &out, &errOut
 	if err := run.Start(); err != nil {
 		return nil, err
 	}
@@ -494,7 +528,7 @@ func oracleBatch(a *vh.Args, progs []*prog, batch int) (map[int]obs, error) {
 	select {
 	case err := <-done:
 		if err != nil {
-			return nil, fmt.Errorf("oracle run: %v\n%s", err, out.String())
+			return nil, fmt.Errorf("oracle run: %v\n%s\n%s", err, out.String(), errOut.String())
 		}
 	case <-time.After(120 * time.Second):
 		run.Process.Kill()
@@ -588,7 +622,9 @@ func main() {
 	rng := vh.NewRng(a.Seed)
 	rep := vh.NewReport(a, "random call trees of 2..4 functions func fN() (r int): emit / r = k / r += k / panic(v) / emit(500+fJ()) / defer closure (over r; may defer, panic, recover, call) / defer fJ() / "+
 		"defers in a loop / counted loop `for n := 0; n < K; n++ { acts }` (K = 2..47; the body may hold defer statements: defers inside long-running loops; what follows the loop runs after the activation executed up to several hundred statements, i.e. in the executor's steady loop) / "+
-		"two ADJACENT defer statements (1/3 of the defer closures are followed directly by another one) / recover() directly / recover() one call deeper (must yield nil); oracle = the same source compiled by go1.23 (event trace, result, escaping panic value). "+
+		"two ADJACENT defer statements (1/3 of the defer closures are followed directly by another one) / "+
+		"defer of a BUILTIN (6% of the acts, also inside counted loops and deferred closures: delete on map / nil map, close on chan / send-only chan, copy of slices / of a string, panic(v), println/print, recover(); "+
+		"arguments are changed after the defer statement and an observer closure deferred just before it emits what the builtin did) + fixed corpus programs of deferred builtins (direct oracle only) / recover() directly / recover() one call deeper (must yield nil); oracle = the same source compiled by go1.23 (event trace, result, escaping panic value). "+
 		"Non-trivial: at least one panic is raised and at least one deferred call runs; distinct by SHA-256 of the source. "+
 		"While finding C07-1 (a panic raised and recovered inside a deferred call swallows the outer panic) is present, its exact input is replayed first and the generator lets no deferred call (transitively) install defers.")
 	wd := vh.NewWatchdog(rep, 180*time.Second)
@@ -614,7 +650,23 @@ func main() {
 		}
 		rep.Extra["defect_present:"+nestedKey] = nestedPresent
 	}
+	// defer of builtins: probe (the generator avoids the class while this gomacro cannot compile it) + corpus programs
+	noBuiltin := false
+	{
+		it := newInterp()
+		perr := vh.Catch(func() {
+			it.ir.Eval("func biprobe() (r int) {\n\tm := map[int]int{1: 1}\n\tdefer delete(m, 1)\n\treturn len(m)\n}\n")
+		})
+		noBuiltin = perr != nil
+		rep.Extra["defect_present:"+biKey] = noBuiltin
+	}
+	registered := registeredKeys(os.Getenv("VERIF_DIR"))
+	deferred := []string{}
 	var progs []*prog
+	if a.Replay == "" {
+		progs = append(progs, biCorpus()...)
+	}
+	ncorpus := len(progs)
 	if a.Replay != "" {
 		// re-execute exactly the recorded tree(s): compiled Go, gomacro, and (when the Coq term was recorded) both models
 		var err error
@@ -624,8 +676,8 @@ func main() {
 		}
 		rep.Extra["replayed"] = len(progs)
 	} else {
-		for i := 0; i < n; i++ {
-			p := genProg(rng.Fork(), nestedPresent)
+		for i := ncorpus; i < ncorpus+n; i++ {
+			p := genProg(rng.Fork(), nestedPresent, noBuiltin)
 			p.Idx = i
 			p.render(fmt.Sprintf("p%d_", i))
 			p.TopName, p.TopIdx = fmt.Sprintf("p%d_f%d", i, len(p.Funcs)-1), len(p.Funcs)-1
@@ -651,16 +703,27 @@ func main() {
 			os.Exit(2)
 		}
 		top := p.TopName + "()"
+		fail := func(what string, got interface{}) {
+			key := "src:" + p.Src
+			if p.Key != "" {
+				key = p.Key
+				if p.Defer && !registered[key] {
+					deferred = append(deferred, fmt.Sprintf("%s: %s: got %v want %v", key, what, got, w))
+					return
+				}
+			}
+			rep.Fail(vh.Failure{Key: key, What: what, Input: p.input(), Got: got, Want: w})
+		}
 		if perr := vh.Catch(func() { it.ir.Eval(p.Src) }); perr != nil {
-			rep.Fail(vh.Failure{Key: "src:" + p.Src, What: "gomacro rejects a program accepted by the Go compiler", Input: p.input(), Got: fmt.Sprint(perr), Want: w})
+			fail("gomacro rejects a program accepted by the Go compiler", fmt.Sprint(perr))
 			it = newInterp()
 			continue
 		}
 		o := it.run(top)
 		if o.String() != w.String() {
-			rep.Fail(vh.Failure{Key: "src:" + p.Src, What: "events / result / escaping panic differ from compiled Go", Input: p.input(), Got: o, Want: w})
+			fail("events / result / escaping panic differ from compiled Go", o)
 		}
-		ndef := p.Feat["defer-closure"] + p.Feat["defer-func"] + p.Feat["defer-in-loop"]
+		ndef := p.Feat["defer-closure"] + p.Feat["defer-func"] + p.Feat["defer-in-loop"] + p.Feat["defer-builtin"]
 		rep.Count(p.Src, p.Feat["panic"] > 0 && ndef > 0)
 		for k := range p.Feat {
 			rep.Dist("construct:" + k)
@@ -690,5 +753,6 @@ func main() {
 		cw.Add(fmt.Sprintf("mkCase %d %s %s %d (N.to_nat %d) %s %d %s", p.Idx, vh.CoqBool(!nestedPresent), p.Coq, p.TopIdx, 400+4*p.Size, coqZs(o.Trace), o.Result, pv))
 	}
 	cw.Close()
+	rep.Extra["deferred_corpus_failures"] = deferred
 	rep.Write()
 }
